@@ -10,4 +10,4 @@ CONSTANTS
   AnonModes = {FALSE}
   AllowWindow = TRUE
   EmitEdges = FALSE
-INVARIANTS TypeOK Ordered NothingLost PayloadPreserved SearchAll PagingPartitions NoParameterCrashes LastReplyOK
+INVARIANTS TypeOK Ordered NothingLost PayloadPreserved SearchAll PagingPartitions WindowPaging NoParameterCrashes LastReplyOK
